@@ -209,4 +209,22 @@ theorem allocLoop_pieces (P : Bytes) (o : Nat) (ls : List Nat) (acc : Bytes) (h 
     rw [slice_length P o l (by omega), ih (o + l) _ (by omega), List.append_assoc, slice_append]
     simp
 
+/-- the loop of `allocate_pdu` succeeds exactly on hole-free, overlap-free fragment lists, and then yields their
+    concatenation — for arbitrary (also hostile) stream contents -/
+theorem allocLoop_some_iff (e : Nat) (acc : Bytes) (frags : List Frag) (buf : Bytes) :
+    allocLoop e acc frags = some buf ↔ contiguous e frags ∧ buf = acc ++ (frags.map (·.payload)).flatten := by
+  induction frags generalizing e acc with
+  | nil => simp [allocLoop, contiguous, eq_comm]
+  | cons f r ih =>
+    simp only [allocLoop, contiguous, List.map_cons, List.flatten_cons]
+    by_cases h : e = f.off
+    · subst h
+      simp only [bne_self_eq_false, Bool.false_eq_true, if_false, true_and]
+      rw [ih]; simp [List.append_assoc]
+    · have h' : (e != f.off) = true := by simpa using h
+      simp only [h', if_true]
+      constructor
+      · intro hh; simp at hh
+      · intro hh; exact absurd hh.1.1.symm h
+
 end Tins.Reasm
